@@ -82,6 +82,8 @@ def generate(seed: int, tier: str = "quick") -> dict:
     wire_len = spans[-1][1] if spans else 0
     tr = common.draw_transport(r_sch, wire_len, spans, kinds=("socket", "socket", "socket", "socket", "tlssocket"))
     cfg["bufsize"] = r_sch.choice(sched.BUFSIZES)
+    if r_cfg.random() < 0.3:
+        cfg["writes"] = sorted({r_cfg.randrange(1, 8) for _ in range(r_cfg.randrange(1, 4))})  # after these many items the application sends a poll
     if wire_len > 60000:
         cfg["bufsize"] = r_sch.choice((64, 1024, 4096, 4096, 65536))
         if len(tr.get("segments") or ()) > 400:
